@@ -110,12 +110,16 @@ Qed.
 
 (** * Part 2: well-formed trees (fragments 1 and 2: constants, identifiers, memory cells, conditionals, the five associative operators,
     minus, and slices; every width is at most 64) and the one-step soundness of _expr_simp on them *)
-Definition frag_op (op : string) : bool := match opk_of op with OAdd | OMul | OXor | OAnd | OOr | OSub => true | _ => false end.
+Definition frag_op (op : string) : bool := match opk_of op with OAdd | OMul | OXor | OAnd | OOr | OSub | OShl | OShr | OSar => true | _ => false end.
+Definition is_shift (op : string) : bool := match opk_of op with OShl | OShr | OSar => true | _ => false end.
 Definition same_size (n : Z) (args : list expr) : bool := forallb (fun a => size a =? n) args.
+(** operands: one width for + * ^ & | -; a value and a count (any widths) for the shifts *)
+Definition args_ok (op : string) (n : Z) (args : list expr) : bool :=
+  if is_shift op then Nat.eqb (List.length args) 2 else same_size n args.
 Definition op_ok (op : string) (args : list expr) : bool :=
   match args with
   | [] => false
-  | a :: _ => frag_op op && same_size (size a) args &&
+  | a :: _ => frag_op op && args_ok op (size a) args &&
               match opk_of op with OSub => (Nat.leb (List.length args) 2) | _ => true end
   end.
 (** [Q name width is_reg is_term]: an arbitrary predicate every identifier of the tree satisfies (the simplifier never invents identifiers, so it is preserved) *)
@@ -157,11 +161,13 @@ Section Sound.
   Qed.
 
   Lemma op_ok_inv op args : op_ok op args = true ->
-    exists a r, args = a :: r /\ frag_op op = true /\ same_size (size a) args = true.
+    exists a r, args = a :: r /\ frag_op op = true /\ args_ok op (size a) args = true.
   Proof.
     unfold op_ok. destruct args as [|a r]; [discriminate|]. intros H.
     apply andb_true_iff in H as [H _]. apply andb_true_iff in H as [F S]. exists a, r. auto.
   Qed.
+  Lemma args_ok_noshift op n args : is_shift op = false -> args_ok op n args = same_size n args.
+  Proof. intros H. unfold args_ok. rewrite H. reflexivity. Qed.
 
   (** width is positive and the value is in range *)
   Lemma wf_range : forall e, wf e = true -> 0 < size e /\ 0 <= ev e < 2 ^ size e.
@@ -229,10 +235,13 @@ Section Sound.
   Lemma aop_not_sub op k : aop_of op = Some k -> opk_of op <> OSub.
   Proof. unfold aop_of. destruct (opk_of op); try discriminate; congruence. Qed.
 
-  Lemma wf_op_inv op args : wf (EOp op args) = true -> all_wf args /\ exists a r, args = a :: r /\ frag_op op = true /\ all_size (size a) args.
+  Lemma aop_noshift op k : aop_of op = Some k -> is_shift op = false.
+  Proof. unfold aop_of, is_shift. destruct (opk_of op); try discriminate; reflexivity. Qed.
+  Lemma wf_op_inv op args : wf (EOp op args) = true -> is_shift op = false ->
+    all_wf args /\ exists a r, args = a :: r /\ frag_op op = true /\ all_size (size a) args.
   Proof.
-    simpl. intros H. apply andb_true_iff in H as [W O]. split; [apply forallb_Forall; assumption|].
-    destruct (op_ok_inv _ _ O) as (a & r & E & F & S). exists a, r. repeat split; try assumption. apply same_size_all. assumption.
+    simpl. intros H NS. apply andb_true_iff in H as [W O]. split; [apply forallb_Forall; assumption|].
+    destruct (op_ok_inv _ _ O) as (a & r & E & F & S). exists a, r. repeat split; try assumption. apply same_size_all. rewrite <- (args_ok_noshift op _ _ NS). assumption.
   Qed.
 
   Lemma flatten_props op k n l : aop_of op = Some k -> 0 < n -> all_wf l -> all_size n l ->
@@ -250,7 +259,7 @@ Section Sound.
       destruct a as [| | |op' xs| | | |]; try (destruct Dflt as (D1 & D2 & D3 & D4); repeat split; auto; fail).
       rewrite (aop_assoc _ _ K). cbn [andb]. destruct (op =? op')%string eqn:E; [|destruct Dflt as (D1 & D2 & D3 & D4); repeat split; auto].
       apply String.eqb_eq in E. subst op'.
-      destruct (wf_op_inv _ _ Wa) as (Wx & x & xr & -> & _ & Sx).
+      destruct (wf_op_inv _ _ Wa (aop_noshift _ _ K)) as (Wx & x & xr & -> & _ & Sx).
       assert (Sxn : size x = size (EOp op (x :: xr))).
       { inversion Wx; subst. symmetry. apply size_node. destruct (wf_range x); try assumption. lia. }
       repeat split.
@@ -326,7 +335,7 @@ Section Sound.
   Proof.
     unfold is_neg_of. destruct x as [| | |op' [|y [|? ?]]| | | |]; try discriminate. intros H W.
     apply andb_true_iff in H as [O E]. apply String.eqb_eq in O. subst op'. destruct (eqb_ev _ _ E) as [Ev Sz].
-    destruct (wf_op_inv _ _ W) as (Wy & _). inversion Wy; subst. destruct (wf_range y) as [Py _]; [assumption|].
+    destruct (wf_op_inv _ _ W eq_refl) as (Wy & _). inversion Wy; subst. destruct (wf_range y) as [Py _]; [assumption|].
     rewrite ev_neg, size_node by lia. rewrite Ev, Sz. auto.
   Qed.
 
@@ -416,7 +425,7 @@ Section Sound.
     inversion S as [|? ? Sa Sr]; inversion S0 as [|? ? Sa0 Sr0]; subst.
     split; [|split].
     - change (wf (EOp op (a :: r))) with (forallb wf (a :: r) && op_ok op (a :: r)). apply andb_true_iff. split; [apply forallb_Forall; assumption|].
-      unfold op_ok. rewrite (aop_frag _ _ K). cbn [andb]. apply andb_true_iff. split.
+      unfold op_ok. rewrite (aop_frag _ _ K), (args_ok_noshift op _ _ (aop_noshift _ _ K)). cbn [andb]. apply andb_true_iff. split.
       + apply same_size_all. assumption.
       + pose proof (aop_not_sub _ _ K). destruct (opk_of op); try reflexivity. congruence.
     - apply size_node. lia.
@@ -464,7 +473,7 @@ Section Sound.
     wf e' = true /\ size e' = size (EOp op eargs) /\ ev e' = ev (EOp op eargs).
   Proof.
     intros K W H.
-    destruct (wf_op_inv _ _ W) as (Wl & a & r & -> & _ & Sl).
+    destruct (wf_op_inv _ _ W (aop_noshift _ _ K)) as (Wl & a & r & -> & _ & Sl).
     assert (Hn : 0 < size a) by (inversion Wl; subst; apply wf_range; assumption).
     set (n := size a) in *. set (eargs := a :: r) in *.
     assert (Sz : size (EOp op eargs) = n) by (apply size_node; lia).
@@ -569,7 +578,7 @@ Section Sound.
   Lemma neg_of_plus xs : wf (EOp "+" xs) = true ->
     wf (EOp "+" (map neg xs)) = true /\ size (EOp "+" (map neg xs)) = size (EOp "+" xs) /\ ev (EOp "+" (map neg xs)) = ev (EOp "-" [EOp "+" xs]).
   Proof.
-    intros W. destruct (wf_op_inv _ _ W) as (Wx & x0 & xr & -> & _ & Sx).
+    intros W. destruct (wf_op_inv _ _ W eq_refl) as (Wx & x0 & xr & -> & _ & Sx).
     assert (P0 : 0 < size x0) by (inversion Wx; subst; apply wf_range; assumption).
     destruct (sum_of_negs (size x0) (x0 :: xr) P0 Wx Sx) as (A & B & C).
     assert (K : aop_of "+" = Some AAdd) by reflexivity.
@@ -577,7 +586,7 @@ Section Sound.
     assert (Sp : size (EOp "+" (x0 :: xr)) = size x0) by (apply size_node; lia).
     split; [|split].
     - change (wf (EOp "+" (neg x0 :: map neg xr))) with (forallb wf (neg x0 :: map neg xr) && op_ok "+" (neg x0 :: map neg xr)).
-      apply andb_true_iff. split; [apply forallb_Forall; exact A|]. unfold op_ok. rewrite Sn.
+      apply andb_true_iff. split; [apply forallb_Forall; exact A|]. unfold op_ok. rewrite Sn. rewrite (args_ok_noshift "+" _ _ eq_refl).
       change (frag_op "+") with true. change (opk_of "+") with OAdd. cbn [andb]. rewrite andb_true_r. apply same_size_all; exact B.
     - rewrite Sp. rewrite size_node by (rewrite Sn; lia). exact Sn.
     - rewrite (ev_assoc "+" AAdd (neg x0) (map neg xr) K) by (rewrite Sn; lia). rewrite Sn.
@@ -596,7 +605,7 @@ Section Sound.
     wf e' = true /\ size e' = size (EOp "-" eargs) /\ ev e' = ev (EOp "-" eargs).
   Proof.
     intros W H. pose proof W as W'. simpl in W'. apply andb_true_iff in W' as [Wl O]. unfold op_ok in O.
-    destruct eargs as [|a r]; [discriminate|]. change (opk_of "-") with OSub in O. change (frag_op "-") with true in O. cbn [andb] in O.
+    destruct eargs as [|a r]; [discriminate|]. rewrite (args_ok_noshift "-" _ _ eq_refl) in O. change (opk_of "-") with OSub in O. change (frag_op "-") with true in O. cbn [andb] in O.
     apply andb_true_iff in O as [S L]. apply Nat.leb_le in L.
     apply forallb_Forall in Wl. apply same_size_all in S. inversion Wl as [|? ? Wa Wr]; inversion S as [|? ? _ Sr]; subst.
     destruct (wf_range a Wa) as [Pa Ra].
@@ -620,7 +629,7 @@ Section Sound.
         * destruct (op' =? "+")%string eqn:Eo; [inversion H; subst e'; apply Plus; reflexivity | inversion H; subst e'; exact Keep].
         * destruct (op' =? "-")%string eqn:Em.
           -- inversion H; subst e'. apply String.eqb_eq in Em. subst op'.
-             destruct (wf_op_inv _ _ Wa) as (Wx & _). inversion Wx as [|? ? Wx0 _]; subst.
+             destruct (wf_op_inv _ _ Wa eq_refl) as (Wx & _). inversion Wx as [|? ? Wx0 _]; subst.
              destruct (wf_range x Wx0) as [Px _]. assert (Sx : size (EOp "-" [x]) = size x) by (apply size_node; lia).
              split; [exact Wx0|]. split; [symmetry; exact Sx | apply neg_neg; exact Wx0].
           -- destruct (op' =? "+")%string eqn:Eo; [inversion H; subst e'; apply (Plus eq_refl) | inversion H; subst e'; exact Keep].
@@ -636,18 +645,209 @@ Section Sound.
         assert (K : aop_of "+" = Some AAdd) by reflexivity.
         split; [|split].
         * change (wf (EOp "+" [a; neg b])) with (forallb wf [a; neg b] && op_ok "+" [a; neg b]). cbn [forallb]. rewrite Wa, Wn. cbn [andb].
-          unfold op_ok. change (frag_op "+") with true. change (opk_of "+") with OAdd. cbn [andb same_size forallb]. rewrite Z.eqb_refl, Sn, Sb, Z.eqb_refl. reflexivity.
+          unfold op_ok. rewrite (args_ok_noshift "+" _ _ eq_refl). change (frag_op "+") with true. change (opk_of "+") with OAdd. cbn [andb same_size forallb]. rewrite Z.eqb_refl, Sn, Sb, Z.eqb_refl. reflexivity.
         * apply size_node. lia.
         * rewrite (ev_assoc "+" AAdd a [neg b] K) by lia. rewrite Ev. apply wrap_cong. cbn [map]. rewrite !afold_cons. change (afold AAdd []) with 0. cbn [af].
           rewrite En, Sb, Z.add_0_r. unfold Z.sub. apply cong_add; [lia | apply cong_refl | apply cong_wrap; lia].
   Qed.
-  (** ** one step of _expr_simp *)
   Definition good (e e' : expr) : Prop := wf e' = true /\ size e' = size e /\ ev e' = ev e.
   Lemma good_refl e : wf e = true -> good e e.
   Proof. intros W. repeat split; assumption. Qed.
   Lemma good_trans e1 e2 e3 : good e1 e2 -> good e2 e3 -> good e1 e3.
   Proof. intros (A & B & C) (A' & B' & C'). repeat split; [assumption | congruence | congruence]. Qed.
 
+  (** ** shifts: a value and a count *)
+  Lemma dedup_rule_shift op ai aj : is_shift op = true -> dedup_rule op ai aj = DKeep.
+  Proof. unfold is_shift, dedup_rule. destruct (opk_of op); try discriminate; reflexivity. Qed.
+  Lemma dedup_inner_shift op : is_shift op = true -> forall rest ai, dedup_inner op ai rest = Ok (ai, rest).
+  Proof.
+    intros S. induction rest as [|x r IH]; intros ai; simpl; [reflexivity|]. rewrite (dedup_rule_shift op ai x S), IH. reflexivity.
+  Qed.
+  Lemma dedup_outer_shift op : is_shift op = true -> forall fuel args, dedup_outer op fuel args = Ok args.
+  Proof.
+    intros S. induction fuel as [|f IH]; intros args; simpl; [reflexivity|].
+    destruct args as [|a [|b r]]; try reflexivity. rewrite (dedup_inner_shift op S). cbn [bind fst snd]. rewrite IH. reflexivity.
+  Qed.
+
+  Definition shift_pipeline (op : string) (a c : expr) : res expr :=
+    do rl <- (match opk_of op with OSar => Ok [c; a] | _ => fold_consts op 2 [c; a] end);
+    let args := rev rl in
+    let zd := match opk_of op with OSar => false | _ => true end in
+    let args1 := if zd && (1 <? Z.of_nat (List.length args)) && match last_opt args with Some l => is_int_val l 0 | None => false end
+                 then removelast args else args in
+    match opk_of op, args1 with
+    | (OShl | OShr), [x] => Ok x
+    | OShr, a0 :: EInt sgc wc vc :: rest =>
+        match a0 with
+        | EOp op2 ys =>
+            if (op2 =? "&")%string then
+              match ys with
+              | _ :: EInt sgm wm vm :: _ => if vm <? 2 ^ vc then mk_int (size a0) 0 else Ok (EOp op args1)
+              | _ :: _ :: _ => Ok (EOp op args1)
+              | _ => Err EIndexError
+              end
+            else Ok (EOp op args1)
+        | _ => Ok (EOp op args1)
+        end
+    | _, _ => Ok (EOp op args1)
+    end.
+  Lemma simp_shift_unfold op a c : is_shift op = true -> simp_op op [a; c] = shift_pipeline op a c.
+  Proof.
+    unfold is_shift. intros S. unfold simp_op, shift_pipeline.
+    destruct (opk_of op) eqn:Ek; try discriminate;
+      (rewrite (flatten_nonassoc op) by (unfold is_assoc; rewrite Ek; reflexivity));
+      unfold is_assoc; rewrite Ek; cbv zeta; cbn [rev app List.length].
+    - (* << *)
+      destruct (fold_consts op 2 [c; a]) as [rl| |]; cbn [bind]; [|reflexivity|reflexivity].
+      set (args1 := if true && (1 <? Z.of_nat (List.length (rev rl))) && match last_opt (rev rl) with Some l => is_int_val l 0 | None => false end then removelast (rev rl) else rev rl).
+      destruct args1 as [|x [|y t]]; try reflexivity; rewrite (dedup_outer_shift op) by (unfold is_shift; rewrite Ek; reflexivity); reflexivity.
+    - (* >> *)
+      destruct (fold_consts op 2 [c; a]) as [rl| |]; cbn [bind]; [|reflexivity|reflexivity].
+      set (args1 := if true && (1 <? Z.of_nat (List.length (rev rl))) && match last_opt (rev rl) with Some l => is_int_val l 0 | None => false end then removelast (rev rl) else rev rl).
+      destruct args1 as [|x [|y t]]; try reflexivity; rewrite (dedup_outer_shift op) by (unfold is_shift; rewrite Ek; reflexivity); cbn [bind]; try reflexivity.
+    - (* a>> *)
+      cbn [bind rev app]. unfold last_opt. cbn [rev app andb]. rewrite (dedup_outer_shift op) by (unfold is_shift; rewrite Ek; reflexivity). reflexivity.
+  Qed.
+
+  Lemma shiftl_sat w x c : 0 < w -> 0 <= c -> wrap w (Z.shiftl x c) = wrap w (Z.shiftl x (Z.min c w)).
+  Proof.
+    intros Hw Hc. destruct (Z_le_gt_dec c w) as [L|L]; [rewrite Z.min_l by lia; reflexivity|]. rewrite Z.min_r by lia.
+    apply wrap_eq_bits; [lia|]. intros i Hi. rewrite !Z.shiftl_spec_low by lia. reflexivity.
+  Qed.
+  Lemma shiftr_sat w x c : 0 < w -> 0 <= c -> 0 <= x < 2 ^ w -> Z.shiftr x c = Z.shiftr x (Z.min c w).
+  Proof.
+    intros Hw Hc Hx. destruct (Z_le_gt_dec c w) as [L|L]; [rewrite Z.min_l by lia; reflexivity|]. rewrite Z.min_r by lia.
+    rewrite !Z.shiftr_div_pow2 by lia. rewrite (Z.div_small x (2 ^ w)) by lia.
+    apply Z.div_small. split; [lia|]. apply Z.lt_le_trans with (2 ^ w); [lia | apply Z.pow_le_mono_r; lia].
+  Qed.
+
+  Lemma ev_shift op a c : is_shift op = true -> 0 < size a -> 0 <= ev a < 2 ^ size a -> 0 <= ev c ->
+    ev (EOp op [a; c]) = match opk_of op with
+                         | OShl => wrap (size a) (Z.shiftl (ev a) (ev c))
+                         | OShr => wrap (size a) (Z.shiftr (ev a) (ev c))
+                         | _ => ev (EOp op [a; c]) end.
+  Proof.
+    intros S Pa Ra Pc. rewrite eval_op_node, size_node by lia. cbn [map]. unfold eval_op, is_shift in *.
+    destruct (opk_of op); try discriminate; try reflexivity.
+    - symmetry. apply shiftl_sat; lia.
+    - rewrite (wrap_small (size a) (ev a) Ra). rewrite <- (shiftr_sat (size a) (ev a) (ev c)) by lia. reflexivity.
+  Qed.
+
+  Lemma fold2_shift op w v1 v2 e : (opk_of op = OShl \/ opk_of op = OShr) -> 0 < w -> 0 <= v1 -> fold2 op false w v1 false w v2 = Ok e ->
+    e = EInt false w (wrap w (match opk_of op with OShl => Z.shiftl v2 v1 | _ => Z.shiftr v2 v1 end)).
+  Proof.
+    intros K Hw Hv. unfold fold2. rewrite Z.eqb_refl. cbn [negb].
+    assert (N : forall r, wrap w (norm (maxcast (cls_of false w) (cls_of false w)) r) = wrap w r).
+    { intros r. unfold maxcast, cls_of. cbn [c_w]. destruct (w >? w);
+        unfold norm, limit; cbn [c_sg c_w]; unfold wrap; apply Z.mod_mod; apply Z.pow_nonzero; lia. }
+    assert (Nn : (v1 <? 0) = false) by (apply Z.ltb_ge; lia).
+    destruct K as [K|K]; rewrite K; unfold binop_apply, exact; rewrite Nn; intros H; apply mk_int_ok in H; rewrite H, N; reflexivity.
+  Qed.
+
+  Lemma land_le_r a b : 0 <= b -> Z.land a b <= b.
+  Proof.
+    intros Hb. assert (L : Z.ldiff (Z.land a b) b = 0).
+    { apply Z.bits_inj'. intros n Hn. rewrite Z.ldiff_spec, Z.land_spec, Z.bits_0. destruct (Z.testbit a n), (Z.testbit b n); reflexivity. }
+    pose proof (Z.sub_nocarry_ldiff b (Z.land a b) L) as E.
+    assert (0 <= Z.ldiff b (Z.land a b)) by (apply Z.ldiff_nonneg; left; exact Hb). lia.
+  Qed.
+  Lemma afold_and_bound : forall vs, Forall (fun v => 0 <= v) vs -> forall m, In m vs -> 0 <= afold AAnd vs <= m.
+  Proof.
+    induction vs as [|v vs IH]; intros F m I; [contradiction|]. inversion F as [|? ? Pv Fv]; subst. rewrite afold_cons. cbn [af].
+    destruct vs as [|v2 vs'].
+    - change (afold AAnd []) with (-1). rewrite Z.land_m1_r. destruct I as [->|[]]. lia.
+    - assert (P2 : 0 <= afold AAnd (v2 :: vs')) by (apply (IH Fv v2); left; reflexivity).
+      destruct I as [->|I].
+      + split; [apply Z.land_nonneg; lia|]. rewrite Z.land_comm. apply land_le_r; lia.
+      + destruct (IH Fv m I) as [_ U]. split; [apply Z.land_nonneg; lia|]. apply Z.le_trans with (afold AAnd (v2 :: vs')); [apply land_le_r; lia | exact U].
+  Qed.
+
+  Definition both_int (c a : expr) : bool := is_int c && is_int a.
+  Lemma fold_consts_1 op o : fold_consts op 1 [o] = Ok [o]. Proof. destruct o; reflexivity. Qed.
+  Lemma fold_consts_2 op c a : fold_consts op 2 [c; a] =
+    match c, a with EInt sg1 w1 v1, EInt sg2 w2 v2 => do o <- fold2 op sg1 w1 v1 sg2 w2 v2; Ok [o] | _, _ => Ok [c; a] end.
+  Proof.
+    destruct c; try reflexivity. destruct a; try reflexivity. cbn [fold_consts].
+    destruct (fold2 op sg w v sg0 w0 v0) as [o| |]; try reflexivity. cbn [bind]. destruct o; reflexivity.
+  Qed.
+
+  (** the `(X & m) >> c` rule: the masked value is below 2^c *)
+  Lemma and_mask_shr a0 ys y0 sgm wm vm t vc : wf a0 = true -> a0 = EOp "&" ys -> ys = y0 :: EInt sgm wm vm :: t -> 0 <= vc -> vm < 2 ^ vc ->
+    Z.shiftr (ev a0) vc = 0.
+  Proof.
+    intros W -> -> Hc Hm. destruct (wf_op_inv _ _ W eq_refl) as (Wl & a & r & E & _ & Sz). inversion E; subst a r. clear E.
+    inversion Wl as [|? ? W0 Wl1]; subst. inversion Wl1 as [|? ? Wm _]; subst.
+    destruct (wf_range y0 W0) as [P0 R0]. destruct (wf_int_inv _ _ _ Wm) as (_ & _ & Rm & Em).
+    destruct (all_wf_range _ _ Wl Sz) as [Rg _].
+    rewrite (ev_assoc "&" AAnd y0 _ eq_refl P0).
+    assert (F : Forall (fun v => 0 <= v) (map ev (y0 :: EInt sgm wm vm :: t))).
+    { apply Forall_forall. intros v I. apply in_map_iff in I as (x & <- & I). rewrite Forall_forall in Rg. specialize (Rg x I). lia. }
+    assert (I : In vm (map ev (y0 :: EInt sgm wm vm :: t))) by (cbn [map]; right; left; exact Em). pose proof (afold_and_bound _ F vm I) as B.
+    set (A := afold AAnd (map ev (y0 :: EInt sgm wm vm :: t))) in *.
+    assert (RA : 0 <= wrap (size y0) A <= A) by (unfold wrap; split; [apply Z.mod_pos_bound; apply Z.pow_pos_nonneg; lia | apply Z.mod_le; [lia | apply Z.pow_pos_nonneg; lia]]).
+    rewrite Z.shiftr_div_pow2 by lia. apply Z.div_small. lia.
+  Qed.
+
+  Theorem simp_op_shift op eargs e' : is_shift op = true -> wf (EOp op eargs) = true -> simp_op op eargs = Ok e' -> good (EOp op eargs) e'.
+  Proof.
+    intros S W H. pose proof W as W'. simpl in W'. apply andb_true_iff in W' as [Wl O]. destruct (op_ok_inv _ _ O) as (a & r & -> & _ & Ao).
+    unfold args_ok in Ao. rewrite S in Ao. destruct r as [|c [|? ?]]; try discriminate.
+    apply forallb_Forall in Wl. inversion Wl as [|? ? Wa Wl']; inversion Wl' as [|? ? Wc _]; subst.
+    destruct (wf_range a Wa) as [Pa Ra]. destruct (wf_range c Wc) as [Pc Rc]. pose proof (wf_size_le a Wa) as Sle.
+    rewrite (simp_shift_unfold op a c S) in H. unfold shift_pipeline in H.
+    assert (Keep : good (EOp op [a; c]) (EOp op [a; c])) by (apply good_refl; exact W).
+    assert (Sz : size (EOp op [a; c]) = size a) by (apply size_node; lia).
+    pose proof (ev_shift op a c S Pa Ra ltac:(lia)) as Ev.
+    assert (Sar : opk_of op = OSar -> good (EOp op [a; c]) e').
+    { intros Ek. rewrite Ek in H. cbn [bind rev app] in H. unfold last_opt in H. cbn [rev app andb] in H. inversion H; subst e'. exact Keep. }
+    assert (K2 : opk_of op = OSar \/ ((opk_of op = OShl \/ opk_of op = OShr))) by (unfold is_shift in S; destruct (opk_of op); try discriminate; auto).
+    destruct K2 as [Ek|K2]; [exact (Sar Ek)|]. clear Sar.
+    assert (EvS : ev (EOp op [a; c]) = wrap (size a) (match opk_of op with OShl => Z.shiftl (ev a) (ev c) | _ => Z.shiftr (ev a) (ev c) end))
+      by (destruct K2 as [Ek|Ek]; rewrite Ek in Ev |- *; exact Ev).
+    assert (ZeroDrop : is_int_val c 0 = true -> good (EOp op [a; c]) a).
+    { intros Z0. destruct c; try discriminate. simpl in Z0. apply Z.eqb_eq in Z0. subst. destruct (wf_int_inv _ _ _ Wc) as (_ & _ & _ & E0).
+      split; [exact Wa|]. split; [symmetry; exact Sz|]. rewrite EvS, E0. destruct K2 as [Ek|Ek]; rewrite Ek; rewrite ?Z.shiftl_0_r, ?Z.shiftr_0_r; symmetry; apply wrap_small; exact Ra. }
+    (* the constant fold *)
+    assert (Fold : forall sg1 w1 v1 sg2 w2 v2 o, c = EInt sg1 w1 v1 -> a = EInt sg2 w2 v2 -> fold2 op sg1 w1 v1 sg2 w2 v2 = Ok o -> good (EOp op [a; c]) o).
+    { intros sg1 w1 v1 sg2 w2 v2 o Ec Ea F. subst a c.
+      destruct (wf_int_inv _ _ _ Wc) as (-> & Pw1 & Rv1 & E1). destruct (wf_int_inv _ _ _ Wa) as (-> & Pw2 & Rv2 & E2).
+      assert (Ew : w1 = w2) by (unfold fold2 in F; destruct (w1 =? w2) eqn:Q; [apply Z.eqb_eq; exact Q | discriminate]). subst w2.
+      apply (fold2_shift op w1 v1 v2 o K2) in F; try lia. subst o.
+      match goal with |- good _ (EInt false w1 (wrap w1 ?x)) => destruct (wf_int w1 x Pw1) as (A & B & C) end.
+      split; [exact A|]. split; [rewrite B; symmetry; exact Sz|]. rewrite C, EvS, E1, E2. simpl size. destruct K2 as [Ek|Ek]; rewrite Ek; reflexivity. }
+    rewrite fold_consts_2 in H.
+    assert (Tail : (match opk_of op with OSar => Ok [c; a] | _ => match c, a with EInt sg1 w1 v1, EInt sg2 w2 v2 => do o <- fold2 op sg1 w1 v1 sg2 w2 v2; Ok [o] | _, _ => Ok [c; a] end end)
+                   = match c, a with EInt sg1 w1 v1, EInt sg2 w2 v2 => do o <- fold2 op sg1 w1 v1 sg2 w2 v2; Ok [o] | _, _ => Ok [c; a] end)
+      by (destruct K2 as [Ek|Ek]; rewrite Ek; reflexivity).
+    rewrite Tail in H. clear Tail.
+    assert (Zd : (match opk_of op with OSar => false | _ => true end) = true) by (destruct K2 as [Ek|Ek]; rewrite Ek; reflexivity).
+    rewrite Zd in H.
+    (* both constants *)
+    destruct (both_int c a) eqn:BI.
+    { destruct c as [sg1 w1 v1| | | | | | |]; try discriminate. destruct a as [sg2 w2 v2| | | | | | |]; try discriminate.
+      destruct (fold2 op sg1 w1 v1 sg2 w2 v2) as [o| |] eqn:F; cbn [bind] in H; try discriminate.
+      cbn [rev app List.length Z.of_nat] in H. cbn [andb Z.ltb Z.compare Pos.compare Pos.of_succ_nat] in H. change (1 <? 1) with false in H. cbn [andb] in H.
+      assert (H' : Ok o = Ok e') by (destruct K2 as [Ek|Ek]; rewrite Ek in H; exact H). inversion H'; subst e'.
+      eapply Fold; try reflexivity. exact F. }
+    assert (RL : match c, a with EInt sg1 w1 v1, EInt sg2 w2 v2 => do o <- fold2 op sg1 w1 v1 sg2 w2 v2; Ok [o] | _, _ => Ok [c; a] end = Ok [c; a]).
+    { unfold both_int in BI. destruct c; try reflexivity. destruct a; try reflexivity. discriminate. }
+    rewrite RL in H. clear RL. cbn [bind rev app] in H. unfold last_opt in H. cbn [rev app List.length Z.of_nat Pos.of_succ_nat Pos.succ] in H. change (1 <? 2) with true in H. cbn [andb] in H.
+    destruct (is_int_val c 0) eqn:Z0.
+    { cbn [removelast] in H. assert (H' : Ok a = Ok e') by (destruct K2 as [Ek|Ek]; rewrite Ek in H; exact H). inversion H'; subst e'. exact (ZeroDrop eq_refl). }
+    destruct K2 as [Ek|Ek]; rewrite Ek in H.
+    - inversion H; subst e'. exact Keep.
+    - destruct c as [sgc wc vc| | | | | | |]; try (inversion H; subst e'; exact Keep).
+      destruct a as [| | | op2 ys | | | |]; try (inversion H; subst e'; exact Keep).
+      destruct (op2 =? "&")%string eqn:E2; [|inversion H; subst e'; exact Keep]. apply String.eqb_eq in E2. subst op2.
+      destruct ys as [|y0 [|m t]]; try discriminate.
+      destruct m as [sgm wm vm| | | | | | |]; try (inversion H; subst e'; exact Keep).
+      destruct (vm <? 2 ^ vc) eqn:Lt; [|inversion H; subst e'; exact Keep]. apply Z.ltb_lt in Lt.
+      apply mk_int_ok in H. subst e'. destruct (wf_int_inv _ _ _ Wc) as (_ & _ & Rvc & Evc).
+      match goal with |- good _ (EInt false ?n (wrap ?n 0)) => destruct (wf_int n 0 ltac:(lia)) as (A & B & C) end.
+      split; [exact A|]. split; [rewrite B; symmetry; exact Sz|]. rewrite C, EvS, Ek, Evc.
+      rewrite (and_mask_shr _ _ y0 sgm wm vm t vc Wa eq_refl eq_refl ltac:(lia) Lt). reflexivity.
+  Qed.
+  (** ** one step of _expr_simp *)
   Lemma osub_is_minus op : opk_of op = OSub -> op = "-"%string.
   Proof.
     unfold opk_of. repeat match goal with |- context [(op =? ?s)%string] => destruct (String.eqb_spec op s); [try discriminate; try (intros; assumption)|] end.
@@ -664,7 +864,7 @@ Section Sound.
       + split; [exact Wb|]. split; [simpl; congruence|]. simpl. simpl in E. rewrite E, Z0. reflexivity.
       + split; [exact Wa|]. split; [reflexivity|]. simpl. simpl in E. rewrite E, Z0. reflexivity.
     - destruct (op =? "-")%string eqn:Eo; [|apply good_refl; exact W]. apply String.eqb_eq in Eo. subst op.
-      destruct (wf_op_inv _ _ W') as (Wx & _). inversion Wx as [|? ? Wx0 _]; subst. destruct (wf_range x Wx0) as [Px Rx].
+      destruct (wf_op_inv _ _ W' eq_refl) as (Wx & _). inversion Wx as [|? ? Wx0 _]; subst. destruct (wf_range x Wx0) as [Px Rx].
       split; [|split; [reflexivity|]].
       + simpl. rewrite Wx0, Wa, Wb. cbn [andb]. apply Z.eqb_eq. exact Sab.
       + change (ev (ECond x a b)) with (if ev x =? 0 then ev b else ev a).
@@ -727,13 +927,10 @@ Section Sound.
     intros W H. destruct e as [| | |op args|c a b|a lo hi| |]; try discriminate; try (inversion H; subst; apply good_refl; exact W).
     - simpl in H. pose proof W as W'. simpl in W'. apply andb_true_iff in W' as [_ O].
       destruct (op_ok_inv _ _ O) as (a & r & _ & F & _). unfold frag_op in F.
-      destruct (opk_of op) eqn:Ek; try discriminate.
-      + apply (simp_op_assoc op AAdd args e'); [unfold aop_of; rewrite Ek; reflexivity | exact W | exact H].
-      + apply (simp_op_assoc op AMul args e'); [unfold aop_of; rewrite Ek; reflexivity | exact W | exact H].
-      + apply (simp_op_assoc op AXor args e'); [unfold aop_of; rewrite Ek; reflexivity | exact W | exact H].
-      + apply (simp_op_assoc op AAnd args e'); [unfold aop_of; rewrite Ek; reflexivity | exact W | exact H].
-      + apply (simp_op_assoc op AOr args e'); [unfold aop_of; rewrite Ek; reflexivity | exact W | exact H].
-      + apply osub_is_minus in Ek. subst op. apply simp_op_sub; assumption.
+      destruct (opk_of op) eqn:Ek; try discriminate;
+        first [ apply (simp_op_shift op args e'); [unfold is_shift; rewrite Ek; reflexivity | exact W | exact H]
+              | apply osub_is_minus in Ek; subst op; apply simp_op_sub; assumption
+              | eapply (simp_op_assoc op _ args e'); [unfold aop_of; rewrite Ek; reflexivity | exact W | exact H] ].
     - simpl in H. inversion H; subst. apply simp_cond_good. exact W.
     - simpl in H. apply simp_slice_good; assumption.
   Qed.
@@ -767,7 +964,7 @@ Section Sound.
     inversion Sz as [[Sa Sr]].
     split; [|split].
     - change (wf (EOp op (a' :: r'))) with (forallb wf (a' :: r') && op_ok op (a' :: r')). apply andb_true_iff. split; [apply forallb_Forall; exact A|].
-      unfold op_ok in *. rewrite Sa. rewrite Ln.
+      unfold op_ok, args_ok in *. rewrite Sa. rewrite Ln.
       assert (SS : same_size (size a) (a' :: r') = same_size (size a) (a :: r)) by (apply same_size_map; exact Sz).
       rewrite SS. exact O.
     - simpl. rewrite Sa. destruct (size a =? 0); [|reflexivity]. destruct r, r'; simpl in *; try discriminate; congruence.
